@@ -131,7 +131,7 @@ def gen_gfa2(rng):
         # an alignment consistent with the two intervals (or none)
         l1 = int(e["e1"].rstrip("$")) - int(e["b1"].rstrip("$"))
         l2 = int(e["e2"].rstrip("$")) - int(e["b2"].rstrip("$"))
-        e["aln"] = "*" if rng.random() < 0.2 else consistent_cigar(rng, l1, l2)
+        e["aln"] = "*" if rng.random() < 0.2 else G.consistent_cigar(rng, l1, l2)
         # parallel edges over one oriented pair become duplicate links in GFA1 (UNSPECIFIED there)
         k = min((e["s1"], e["o1"], e["s2"], e["o2"]), (e["s2"], S.inv(e["o2"]), e["s1"], S.inv(e["o1"])),
                 (e["s2"], e["o2"], e["s1"], e["o1"]), (e["s1"], S.inv(e["o1"]), e["s2"], S.inv(e["o2"])))
